@@ -14,7 +14,7 @@ from . import extract
 from . import state as st
 from .contracts import (LemmaInstance, Arr, ArrView, Bool, Contract, Ctx, Flt, Int, Loop, RecView, Sort, Tup, ListOf, Rec, labelled,
                         make_symbolic, wrap)
-from .values import (FIN, NAN, NINF, NONE, PINF, Mode, SArr, SBool, SFloat, SFunc, SInt, SList, SNone,
+from .values import (FIN, NAN, NINF, NONE, PINF, GList, Mode, SArr, SBool, SFloat, SFunc, SInt, SList, SNone,
                      SRecord, SStr, STuple, Unsupported, And, Implies, Ite, Not, Or, drain_side_constraints,
                      fresh_name, fsqrt, int_sort, merge_values, to_bool, to_float, to_int,
                      values_equal_syntactically)
@@ -136,6 +136,7 @@ class Engine:
         ob.props = fr.contract.props
         ob.fuel = fr.contract.fuel
         ob.solver_opts = fr.contract.solver_opts
+        ob.flags = set(fr.contract.flags)
         ob.tactic = fr.contract.tactic if expect == 'valid' else None
         self.obligs.append(ob)
         info = self.functions[fr.contract.target]
@@ -487,6 +488,12 @@ class Engine:
                 la, lb = a.lists[k], b.lists[k]
                 if la is lb:
                     lists[k] = la
+                elif isinstance(la, GList) or isinstance(lb, GList):
+                    if not (isinstance(la, GList) and isinstance(lb, GList) and la.arity == lb.arity):
+                        raise Unsupported("merge of a growable list with a plain one")
+                    cz_ = c.z()
+                    lists[k] = GList([x if x.eq(y) else z3.If(cz_, x, y) for x, y in zip(la.cols, lb.cols)],
+                                     merge_values(c, la.n, lb.n), la.arity)
                 elif len(la) == len(lb):
                     lists[k] = tuple(x if x is y else merge_values(c, x, y) for x, y in zip(la, lb))
                 else:
@@ -567,6 +574,8 @@ class Engine:
             return seq.length(), lambda k: self.index_value(seq, to_int(k), s, fr)
         if isinstance(seq, SList):
             items = s.lists[seq.lid]
+            if isinstance(items, GList):
+                return items.n, lambda k, g=items: g.get(to_int(k))
             return SInt(len(items)), lambda k: s.lists[seq.lid][int(to_int(k))]
         if isinstance(seq, STuple):
             return SInt(len(seq)), lambda k: seq.items[int(to_int(k))]
@@ -698,6 +707,11 @@ class Engine:
         for b in bases.values():
             st.havoc_base(s, b)
         for lid in lids:
+            if isinstance(s.lists[lid], GList):
+                g = GList.fresh('gl', s.lists[lid].arity)
+                s.assume(g.n >= 0)
+                s.lists[lid] = g
+                continue
             s.lists[lid] = tuple(self.havoc_value(x, s, 'l') for x in s.lists[lid])
         return names, bases
 
@@ -927,10 +941,15 @@ class Engine:
             m0 = to_int(spec.decreases(self.loop_ctx(fr, body_s, entry, {})))
             self.oblige(fr, body_s, 'decr', f'loop{k}-measure-nonneg', m0 >= 0, node.lineno)
         outs = []
+        head = body_s.clone()
         for o in self.exec_block(node.body, body_s, fr):
             if o[1].dead:
                 continue
             if o[0] in ('next', 'continue'):
+                if spec.hints is not None:
+                    # ghost steps at the end of the body; `head` = the state at the head of this iteration
+                    hctx = self.loop_ctx(fr, o[1], entry, {}, iter0=head)
+                    self.ghost_steps(fr, o[1], spec.hints(hctx), node.lineno)
                 self.check_inv(fr, o[1], spec, entry, {}, 'inv-keep', node.lineno)
                 if m0 is not None:
                     m1 = to_int(spec.decreases(self.loop_ctx(fr, o[1], entry, {})))
@@ -948,6 +967,12 @@ class Engine:
 
     def assign(self, target, v, s, fr):
         if isinstance(target, ast.Name):
+            gl = fr.contract.glists
+            if target.id in gl and isinstance(v, SList) and not isinstance(s.lists[v.lid], GList):
+                # declared a list of symbolic length: a fresh list object with the same items
+                v2 = s.new_list(())
+                s.lists[v2.lid] = GList.from_items(s.lists[v.lid], gl[target.id])
+                v = v2
             s.env[target.id] = v
             return
         if isinstance(target, (ast.Tuple, ast.List)):
@@ -1022,6 +1047,8 @@ class Engine:
         if isinstance(v, SRecord):
             return SBool(True)
         if isinstance(v, SList):
+            if isinstance(s.lists[v.lid], GList):
+                return s.lists[v.lid].n > 0
             return SBool(len(s.lists[v.lid]) > 0)
         if isinstance(v, STuple):
             return SBool(len(v) > 0)
@@ -1498,6 +1525,8 @@ def _arrays_in(v, lists):
         return out
     if isinstance(v, SList):
         out = []
+        if isinstance(lists.get(v.lid, ()), GList):
+            return out
         for x in lists.get(v.lid, ()):
             out += _arrays_in(x, lists)
         return out
